@@ -48,6 +48,10 @@ def setup():
 
 
 def replay(prop, path):
+    # properties living in their own module may bring their own replay (vlib/p_cXX.py: replay(path))
+    mod = sys.modules.get(f"vlib.p_{prop.lower()}")
+    if mod is not None and hasattr(mod, "replay"):
+        return mod.replay(path)
     with open(path) as f:
         rec = json.load(f)
     rp = rec.get("replay", {})
